@@ -36,6 +36,7 @@ import macro_gen  # noqa: E402
 import c18_check  # noqa: E402
 import fill_check  # noqa: E402
 import cfg_probe  # noqa: E402
+import side_probe  # noqa: E402
 import ops as O  # noqa: E402
 import session  # noqa: E402
 from props import PROPS, CONFIGS, THOROUGH_CONFIGS, AXIOM_ALLOW  # noqa: E402
@@ -576,11 +577,25 @@ def check(pid, tier, seed):
             cfgp_viol = cr['violations']
             cfgp_info = dict(pairs_compiled_and_compared=cr['pairs'], skipped_invalid=cr.get('skipped', 0), sample=cr['sample'])
 
+    side_info = None
+    side_viol = []
+    if P.get('side'):
+        sr = side_probe.run(REPO, CACHE, seed, 40 * scale)
+        if sr['error']:
+            broken.append(('build', 'side probe: ' + sr['error']))
+        else:
+            side_viol = sr[P['side'] + '_failures']
+            side_info = dict(kind=P['side'], scenarios=sr[P['side'] + '_scenarios'], builds=['debug', 'release'])
+
     violations = []
     known_hits = []
     kf = known_findings()
     for v in c18_viol:
         path = write_replay(pid, dict(property=pid, kind='specification-violation', harness='c18', detail=v, broken=broken))
+        violations.append('VIOLATION property=%s replay=%s' % (pid, path))
+    for v in side_viol[:3]:
+        path = write_replay(pid, dict(property=pid, kind='specification-violation', harness='side_probe', which=P['side'], reason=v, seed=seed, broken=broken,
+                                      how='harness/side_probe %s scenarios (see the header of its main.rs); re-run: cargo run -- <seed %% 100000> <n>' % P['side']))
         violations.append('VIOLATION property=%s replay=%s' % (pid, path))
     for v in cfgp_viol[:3]:
         path = write_replay(pid, dict(property=pid, kind='specification-violation', harness='cfg_probe', reason=v['what'], description=v['description'],
@@ -733,14 +748,14 @@ def check(pid, tier, seed):
             trusted_base=['Coq 8.16.1 kernel incl. vm_compute', 'tools/extract.py (translator)', 'correspondence harness (harness/storage_harness, tools/gen_ops.py, tools/coqrun.py)',
                           'rustc/cargo', 'axioms: ' + (', '.join(axioms) if axioms else 'none (Closed under the global context)')],
             theorems=thms, cone_files=conefiles,
-            evaluations=total_cases + (1 if fill_info else 0) + (cfgp_info['pairs_compiled_and_compared'] if cfgp_info else 0) + (macro_info['cases'] if macro_info else 0) + ((c18_info['programs'] + c18_info['expansions_checked']) if c18_info else 0),
+            evaluations=total_cases + (side_info['scenarios'] if side_info else 0) + (1 if fill_info else 0) + (cfgp_info['pairs_compiled_and_compared'] if cfgp_info else 0) + (macro_info['cases'] if macro_info else 0) + ((c18_info['programs'] + c18_info['expansions_checked']) if c18_info else 0),
             distinct_nontrivial=len(distinct) + (macro_info['distinct'] if macro_info else 0) + ((c18_info['programs'] + c18_info['expansions_checked']) if c18_info else 0),
             rule='histories generated interactively from VERIF_SEED per stream; non-trivial = at least 10 operations including every kind in %s; distinct by the hash of the operation list' % sorted(need),
             traces_validated_against_impl=total_cases,
             model_disagreements=len(diffs), spec_failures=len(own),
             streams=[dict(config=cn, cases=s['cases'], ops=s['ops'], histories_meeting_run_theorem_hypotheses=s.get('wf_histories', 0), histories_meeting_history_theorem_hypotheses=s.get('hist_histories', 0), ops_by_kind=s['by_kind'], outcomes=s['outcomes']) for cn, s in stats_all],
             samples=([sample] if sample else []) + ([macro_info['sample']] if macro_info else []),
-            macro=macro_info, c18=c18_info, fill=fill_info, cfg_probe=cfgp_info, coqchk=coqchk_note, programs=(c18_info['programs'] if c18_info else 0),
+            macro=macro_info, c18=c18_info, fill=fill_info, side_probe=side_info, cfg_probe=cfgp_info, coqchk=coqchk_note, programs=(c18_info['programs'] if c18_info else 0),
             exhaustive=any(r['case'].get('exhaustive') for r in all_results) if pid == 'C11' else False,
             explanation='machine-checked theorems over the model; model tied to the source by translation (coq/gen regenerated this run) and by differential execution of the same operations on the implementation',
         ),
@@ -780,6 +795,15 @@ def replay(path):
                         return 1
             return 0
         print(json.dumps(d, indent=1))
+        return 0
+    if j.get('harness') == 'side_probe':
+        sr = side_probe.run(REPO, CACHE, j['seed'], 40)
+        now = sr[j['which'] + '_failures']
+        print('recorded:', j['reason'])
+        print('now:', now[:3] if now else 'no failing scenario', sr['error'] or '')
+        if now:
+            print('VIOLATION property=%s replay=%s' % (pid, path))
+            return 1
         return 0
     if j.get('harness') == 'cfg_probe':
         cr = cfg_probe.run(REPO, CACHE, j['seed'], 12)
